@@ -229,116 +229,4 @@ mod verif_l4_line {
     fn l4_line_accepted_28() {
         accepted(true, false);
     }
-
-    // ------------------------------------------------------------ the real loop, two iterations
-    // The extracted loop body cannot see state that a change carries from one iteration to the
-    // next through a local declared before the loop (seeded change agent2_C03).  This obligation
-    // runs the REAL read_lines on a two-line stream with the prologue helpers and the per-line
-    // callees replaced by recorders, and checks that the second line is processed like a first.
-    static mut GM_CALL: usize = 0;
-    static mut GM_PTR: [*const u32; 2] = [core::ptr::null(); 2];
-    static mut GM_DF: [u32; 2] = [99; 2];
-    fn gm_two(_s: &str) -> Option<Vec<u32>> {
-        let d = any_frame28();
-        kani::assume(crate::verif_spec::agree(&d));
-        let v = d.to_vec();
-        unsafe {
-            if GM_CALL < 2 {
-                GM_PTR[GM_CALL] = v.as_ptr();
-                GM_DF[GM_CALL] = crate::verif_spec::df_of(&d);
-            }
-            GM_CALL += 1;
-        }
-        Some(v)
-    }
-    static mut IC_CALL: usize = 0;
-    static mut IC_RET: [u32; 2] = [0; 2];
-    fn icao_two(_m: &[u32], _df: u32) -> Option<u32> {
-        let a: u32 = kani::any();
-        kani::assume(a != 0 && a <= 0xFF_FFFF);
-        unsafe {
-            if IC_CALL < 2 {
-                IC_RET[IC_CALL] = a;
-            }
-            IC_CALL += 1;
-        }
-        Some(a)
-    }
-    static mut FM_CALL: usize = 0;
-    static mut FM_PTR: [*const u32; 2] = [core::ptr::null(); 2];
-    fn fm_two(m: &[u32]) -> core::result::Result<DF, &str> {
-        let k = unsafe { FM_CALL };
-        unsafe {
-            if k < 2 {
-                FM_PTR[k] = m.as_ptr();
-            }
-            FM_CALL += 1;
-        }
-        let mut r = Srt::new();
-        r.df = Some(1000 + k as u32); // marker: which call produced this record
-        Ok(DF::SRT(r))
-    }
-    static mut UA_CALL: usize = 0;
-    static mut UA_ARGS: [(*const u32, u32, u32, u32); 2] = [(core::ptr::null(), 0, 0, 0); 2];
-    fn ua_two(_p: &mut Planes, dl: &DF, m: &[u32], df: u32, icao: u32, _args: &Args) {
-        let marker = match dl {
-            DF::SRT(r) => r.df.unwrap_or(0),
-            _ => 0,
-        };
-        unsafe {
-            if UA_CALL < 2 {
-                UA_ARGS[UA_CALL] = (m.as_ptr(), df, icao, marker);
-            }
-            UA_CALL += 1;
-        }
-    }
-    static mut CL_CALL: usize = 0;
-    fn cl_two(_p: &mut Planes, _st: &mut AppCounters, _now: chrono::DateTime<chrono::Utc>, _d: i64) {
-        unsafe {
-            CL_CALL += 1;
-        }
-    }
-    fn headers_stub(_f: &DisplayFlags) -> LegendHeaders {
-        LegendHeaders { header: String::new(), separator: String::new() }
-    }
-    fn flags_stub(_s: &str) -> DisplayFlags {
-        DisplayFlags { bits: 1 << 5 } // quiet
-    }
-    fn counters_stub(_update: i64) -> AppCounters {
-        counters()
-    }
-    fn lossy_stub(_v: &[u8]) -> std::borrow::Cow<'_, str> {
-        std::borrow::Cow::Borrowed("x") // the line text is only handed to the get_message stand-in
-    }
-
-    //@ob id=L4.loop.two_lines flags=noassert mem=high props=C03,C11,C13,C19 tier=dropped kind=harness fns=reader.rs:read_lines bounded=2-lines
-    //@region BOUNDED: the REAL read_lines loop on a two-line stream, both lines accepted 112-bit frames (any DF>=16, any non-zero addresses), quiet display, prologue helpers as stand-ins: each line gets its OWN downlink record (built from this line's frame) and the table is updated once per line with this line's frame, DF and address - nothing is carried over from the previous line
-    #[kani::proof]
-    #[kani::unwind(40)]
-    #[kani::stub(chrono::Utc::now, now_rec)]
-    #[kani::stub(crate::decoder::utils::get_message, gm_two)]
-    #[kani::stub(crate::decoder::adsb::icao::get_icao, icao_two)]
-    #[kani::stub(<crate::decoder::downlink::dfs::DF as crate::decoder::downlink::dfs::Downlink>::from_message, fm_two)]
-    #[kani::stub(crate::decoder::planes::Planes::update_aircraft, ua_two)]
-    #[kani::stub(crate::decoder::planes::Planes::cleanup, cl_two)]
-    #[kani::stub(crate::decoder::plane::header::LegendHeaders::from_display_flags, headers_stub)]
-    #[kani::stub(crate::decoder::plane::header::DisplayFlags::from_arg_str, flags_stub)]
-    #[kani::stub(crate::counters::AppCounters::from_update_interval, counters_stub)]
-    #[kani::stub(alloc::string::String::from_utf8_lossy, lossy_stub)]
-    fn l4_loop_two_lines() {
-        let args = mk_args(false, None, None, 3, 60, kani::any(), kani::any());
-        let mut t = empty_table();
-        let stream: &[u8] = b"a\nb\n";
-        let r = read_lines(stream, &args, &mut t);
-        assert!(r.is_ok(), "reading ends normally");
-        unsafe {
-            assert!(GM_CALL == 2 && IC_CALL == 2, "both lines are looked at");
-            assert!(FM_CALL == 2 && FM_PTR[0] == GM_PTR[0] && FM_PTR[1] == GM_PTR[1], "each line's downlink record is built from that line's frame");
-            assert!(UA_CALL == 2 && CL_CALL == 2, "table updated and sweep checked once per line");
-            assert!(UA_ARGS[0] == (GM_PTR[0], GM_DF[0], IC_RET[0], 1000), "first line: its frame, DF, address and its own record");
-            assert!(UA_ARGS[1] == (GM_PTR[1], GM_DF[1], IC_RET[1], 1001), "second line: its frame, DF, address and its OWN record (nothing carried over from the previous line)");
-        }
-        kani::cover!(unsafe { GM_DF[1] } == 18, "second line DF18");
-        kani::cover!(true, "reach_end");
-    }
 }
